@@ -360,6 +360,13 @@ _ARITH = {
 def binop(interp, st, op, l, r, node=None):
     t = type(op)
     I = _I()
+    if t is ast.Add and (I.is_obj(l) or isinstance(l, I.ObjMethod)) and isinstance(r, (list, tuple)):
+        # <opaque list> + [literal, ...]: an unknown function of the object and the (interned) literal
+        lv = l.value if isinstance(l, I.ObjMethod) else l
+        rc = V._coerce_objs(lv, r)
+        if rc is None or not I.is_obj(rc):
+            raise Outside("concatenation of an opaque object with a list that has symbolic parts", node)
+        return z3.Function("obj.concat", I.OBJ_SORT, I.OBJ_SORT, I.OBJ_SORT)(lv, rc)
     if t is ast.Div and (I.is_obj(l) or I.is_obj(r) or isinstance(l, I.ObjMethod) or isinstance(r, I.ObjMethod)):
         # `path / name` on opaque objects: an unknown function of the two
         ls = [to_z3(x) for x in V.leaves_of(l) if x is not None and not isinstance(x, str)]
